@@ -270,6 +270,10 @@ impl Dump {
                     } else {
                         format!("({} {})", t.name, parts.join(" "))
                     };
+                    // big terms are named by a structural hash (still canonical: it depends only
+                    // on the constructor and the children's names), so that names stay short even
+                    // when sub-terms are shared (a DAG would otherwise print exponentially)
+                    let name = if name.len() > 120 { format!("({}#{:016x}/{})", t.name, fnv(&name), sz) } else { name };
                     let cand = (sz, name);
                     match best.get(&(s.clone(), c)) {
                         Some(cur) if *cur <= cand => {}
